@@ -2,7 +2,7 @@
 From Coq Require Import List ZArith Bool Lia.
 From BLB Require Import Gen.Consts.
 From BLB Require Cluster.Model.
-From BLB Require Import C14.Model C14.Witness C14.Proofs C14.Run C14.Late.
+From BLB Require Import C14.Model C14.Witness C14.Proofs C14.Run C14.Late C14.InvFrame C14.InvStore C14.InvVer.
 Import ListNotations.
 Open Scope Z_scope.
 
@@ -109,3 +109,47 @@ Theorem after_move_writes_refused_partial :
   forall fx evs, fx14 fx = true -> s_late (run_state_fx fx init_state evs) = [].
 Proof. exact no_late_ack. Qed.
 Print Assumptions after_move_writes_refused_partial.
+
+(* [FULL] invariant I1, from any state, over every run-phase schedule (no setup events 1 2 20 21, no scripted reply 81) and every setting of the switches: if the stamp a Stat returned is still the stamp of the replica, the list of write attempts the replica applied is the one it had at the Stat and its version has not decreased; so a conditional bump that succeeds certifies that no write reached the replica since its Stat *)
+Theorem stamp_unchanged_means_writes_unchanged :
+  forall fx st evs ts tk v e sz stamp,
+    forallb ev_run evs = true ->
+    ts_stat st ts tk v = (e, sz, stamp) -> e <> cl_ErrNoSuchTract ->
+    stamp_of (run_state_fx fx st evs) ts tk = stamp ->
+    exists r r', Cluster.Model.rget (s_reps st) (ts, tk) = Some r /\
+                 Cluster.Model.rget (s_reps (run_state_fx fx st evs)) (ts, tk) = Some r' /\
+                 Cluster.Model.r_app r' = Cluster.Model.r_app r /\ Cluster.Model.r_ver r <= Cluster.Model.r_ver r'.
+Proof. exact I1_stamp_unchanged_writes_unchanged. Qed.
+Print Assumptions stamp_unchanged_means_writes_unchanged.
+
+(* non-vacuity of I1: schedule f6 after its setup and round start, twelve Stat decisions later the stamp of replica (1, tract 0) is unchanged *)
+Example stamp_unchanged_example :
+  let st := run_state_fx all_fix init_state (firstn 22 w_f6) in
+  let evs := firstn 12 (skipn 22 w_f6) in
+  forallb ev_run evs = true /\ ts_stat st 1 (0, 0) 1 = (cl_NoError, 100, (0, 0)) /\
+  stamp_of (run_state_fx all_fix st evs) 1 (0, 0) = (0, 0).
+Proof. vm_compute. repeat split; reflexivity. Qed.
+
+(* [FULL] invariant I3 part a, every schedule of every kind of event, commit with version check (fx6): in every reachable state each location entry held by a client (cached or in use by a write) and each pending Write call names a version not above the durable version of its tract, and as long as the tract has no RS pointer the hosts of the entry, the hosts a fixVersion task will commit and the sources of a tractPacker are the durable hosts (record DInv in InvVer.v) *)
+Theorem held_versions_are_bounded_by_durable_version :
+  forall fx evs, fx6 fx = true -> DInv (run_state_fx fx init_state evs).
+Proof. exact DInv_reachable. Qed.
+Print Assumptions held_versions_are_bounded_by_durable_version.
+
+(* [FULL] invariant I3 part b, replica-version fencing, from any state over every run-phase schedule: once a bump to nv, conditional or not, has succeeded on a replica, every later write naming a version below nv is refused by that replica with ErrVersionMismatch and changes nothing on it *)
+Theorem bumped_replica_refuses_old_version :
+  forall fx st ts tsid tk nv cond st1 evs ver wid off len,
+    ts_setversion st ts tsid tk nv cond = (st1, cl_NoError) -> forallb ev_run evs = true -> ver < nv ->
+    let st2 := run_state_fx fx st1 evs in
+    snd (ts_write st2 ts tk ver wid off len) = cl_ErrVersionMismatch /\
+    s_reps (fst (ts_write st2 ts tk ver wid off len)) = s_reps st2.
+Proof. exact I3_bumped_replica_refuses_old_version. Qed.
+Print Assumptions bumped_replica_refuses_old_version.
+
+(* non-vacuity of I3: in schedule f6 after 57 decisions a client write holds a location entry and two Write calls are pending; a bump of replica (1, tract 0) to version 2 succeeds in the state after setup *)
+Example held_versions_example :
+  let st := run_state_fx all_fix init_state (firstn 57 w_f6) in
+  existsb (fun w => match wo_entry w with Some _ => true | None => false end) (s_wops st) = true /\
+  length (filter (fun pe => Cluster.Model.k_kind (p_rpc pe) =? K_Write) (s_pool st)) = 2%nat /\
+  snd (ts_setversion (run_state_fx all_fix init_state (firstn 22 w_f6)) 1 1 (0, 0) 2 None) = cl_NoError.
+Proof. vm_compute. repeat split; reflexivity. Qed.
